@@ -18,7 +18,7 @@ PROBES = ["workers>1", "switches>0", "multi_file", "unequal_file_sizes", "parque
           "scan_only_key", "four_col_key", "multi_psm_spectra", "fallback_best_feature",
           "brew_raised", "fold_without_accept", "dup_scan_other_mass", "pct_schedule", "pred_chunk_lacks_fold",
           "proba_only_learner", "learner_with_both_methods", "tied_raw_outputs", "same_files_analysed_before_in_process",
-          "trained_models_reused_with_other_seed", "output_on_another_scale"]
+          "trained_models_reused_with_other_seed", "output_on_another_scale", "through_command_line"]
 
 
 def make_scenario(prop, seed):
@@ -94,6 +94,11 @@ def make_scenario(prop, seed):
         # the same margins reported on another scale (large offset and small unit, tiny or huge unit): calibration must
         # not care
         cfg["est_kw"] = {"affine_out": rng.choice([[1000.0, 1e-3], [-5e4, 2.5e-2], [0.0, 1e-9], [3.0, 1e6]])}
+    # a fifth of the text scenarios run the same analysis through the command line entry point (mokapot.mokapot.main):
+    # the glue between argument parsing, read_pin, the model and brew is then part of what is executed
+    r_cli = random.Random(f"cli|{seed}")
+    if fmt == "pin" and r_cli.random() < 0.2:
+        cfg["via_cli"] = True
     return scn
 
 
@@ -127,7 +132,8 @@ def run_scenario(scn, workdir, want):
     cfg = scn["cfg"]
     if scn.get("prior"):
         cfg0 = dict(cfg)
-        cfg0.update(folds=scn["prior"]["folds"], seed=scn["prior"]["seed"], max_workers=1, subset_max_train=None, override=True)
+        cfg0.update(folds=scn["prior"]["folds"], seed=scn["prior"]["seed"], max_workers=1, subset_max_train=None, override=True,
+                    via_cli=False)
         P.run_pipeline(tables, cfg0, workdir, "run", fmt=scn["format"], row_group=scn.get("row_group"),
                        sched_desc={"mode": "fifo"}, knobs=None, stop_after="brew")
     estimators.REGISTRY.clear()
@@ -157,6 +163,7 @@ def run_scenario(scn, workdir, want):
         "learner_with_both_methods": int(cfg["learner"] == "blda"),
         "tied_raw_outputs": int(bool((cfg.get("est_kw") or {}).get("round_out") is not None)),
         "output_on_another_scale": int(bool((cfg.get("est_kw") or {}).get("affine_out"))),
+        "through_command_line": int(bool(cfg.get("via_cli"))),
         "dup_scan_other_mass": int(bool(scn["data"].get("dup_scan_frac")) and "ExpMass" in scn["data"]["spec_extra"]),
         "pred_chunk_lacks_fold": int(kn.get("CHUNK_SIZE_ROWS_PREDICTION", 10**9) < 2 * cfg["folds"]),
     }
@@ -244,7 +251,7 @@ def _reuse_models(scn, tables, cfg, models, col, t2fr, workdir, probes, out, vio
     """Second brew call: the trained fold models of the first call, in fold order, another seed, one worker."""
     before = [len(getattr(m.estimator, "pred_log_", [])) for m in models]
     cfg2 = dict(cfg)
-    cfg2.update(seed=scn["reuse_seed"], max_workers=1)
+    cfg2.update(seed=scn["reuse_seed"], max_workers=1, via_cli=False)
     res2 = P.run_pipeline(tables, cfg2, workdir, "run", fmt=scn["format"], row_group=scn.get("row_group"),
                           sched_desc={"mode": "fifo"}, knobs=scn.get("knobs"), models_in=list(models), stop_after="brew")
     if res2.exc is not None:
@@ -458,6 +465,8 @@ def shrink_candidates(scn):
         c = clone(scn); c["prior"] = None; yield c
     if scn.get("reuse_seed") is not None:
         c = clone(scn); c["reuse_seed"] = None; yield c
+    if cfg.get("via_cli"):
+        c = clone(scn); c["cfg"]["via_cli"] = False; yield c
     if cfg["max_workers"] > 1:
         c = clone(scn); c["cfg"]["max_workers"] = 1; c["sched"] = {"mode": "fifo"}; yield c
         c = clone(scn); c["cfg"]["max_workers"] = 2; yield c
